@@ -52,6 +52,10 @@ def all_none(E, path, v, depth=0):
         return False
     if value_is_none(E, path, v):
         return True
+    # a symbolic Poll / Option known to be Pending / None carries nothing
+    k = E.variant_known(path.facts, v) if v[0] in ('ret', 'init', 'field') else None
+    if k and k[0] == 'eq' and k[1] in ('Pending', 'None'):
+        return True
     if v[0] == 'tuple':
         return all(all_none(E, path, x, depth + 1) or not _may_hold(x) for x in v[1])
     if v[0] == 'agg' and v[1] == 'std::task::Poll':
@@ -70,6 +74,18 @@ def _may_hold(v):
 
 
 # payload drops that are part of the contract (role, reason)
+# (state struct, role, reason): the drop may sit in any function of that state's layer (its methods and the private
+# helpers only they call) - or, for the discard of buffered values, in the last receiver's destructor itself
+ALLOWED_SINKS = [
+    ('channel::mpmc::ChannelState', 'ret-of-pop',
+     'the last receiver discards buffered values (documented; C11.R6 / C08.R2 restrict when)'),
+    ('channel::state_broadcast::ChannelState', 'old-self-value',
+     'state broadcast overwrites the superseded state by design'),
+    ('channel::oneshot::ChannelState', 'old-self-value',
+     'the slot is empty while is_fulfilled == false (C12.R1): dropping None'),
+    ('channel::oneshot_broadcast::ChannelState', 'old-self-value',
+     'the slot is empty while is_fulfilled == false (C12.R1): dropping None'),
+]
 ALLOWED_DROPS = [
     ('channel::mpmc::ChannelState::<T, A>::clear', 'ret-of-pop',
      'clear(): the last receiver discards buffered values (documented; C11.R6 restricts the caller)'),
@@ -102,6 +118,8 @@ def run(C, R):
         F.adt(STATE)
         ndrop = 0
         seen = set()
+        from rl import state_layer
+        layer = state_layer(F, CG, sorted(C.roles(cfg).state_structs))
         fns = [fn for p, fn in F.fns.items() if p.lstrip('<').startswith('channel::')
                and not (fn.get('impl_trait') or '').endswith('fmt::Debug') and fn['kind'] != 'closure']
         for fn in fns:
@@ -128,6 +146,22 @@ def run(C, R):
                     elif v[0] == 'init' and loc_endswith(v[1], 'value') and '<locked>' in v[1]:
                         role = 'old-self-value'
                     allowed = [a for a in ALLOWED_DROPS if a[0] == e['fn'] and a[1] == role]
+                    if not allowed:
+                        sp_of = layer.get(e['fn'])
+                        if sp_of is None and role == 'ret-of-pop' and (F.fn(e['fn']) or {}).get('impl_adt', '').endswith(
+                                'shared::GenericReceiver') and ((F.fn(e['fn']) or {}).get('impl_trait') or '').endswith('ops::Drop'):
+                            sp_of = STATE
+                        if role == 'ret-of-pop' and not any(c['k'] == 'call' and c.get('name') == 'pop' and c.get('ret') == v
+                                                            for c in path.events):
+                            sp_of = None    # a dropped call result that is not the popped value
+                        if role == 'ret-of-pop' and sp_of == STATE and layer.get(e['fn']) == STATE and \
+                                (F.fn(e['fn']) or {}).get('name') != 'clear':
+                            sp_of = None    # inside the state layer only clear() discards buffered values
+                        if role == 'old-self-value' and sp_of is not None and not any(
+                                w['k'] == 'write' and w['loc'][-1:] == ('value',) and w['val'] != NONE
+                                for w in path.events):
+                            sp_of = None    # the old value is dropped without a new one taking its place
+                        allowed = [a for a in ALLOWED_SINKS if a[0] == sp_of and a[1] == role]
                     if allowed:
                         if key not in seen:
                             seen.add(key)
@@ -157,14 +191,36 @@ def run(C, R):
                            'send_or_register returns Pending together with a value: the send future\'s poll drops '
                            'that tuple slot', '%s:%s' % (sor[0]['file'], sor[0]['line']))
         # R2: who may call clear
-        clear = F.one_fn(impl_adt=STATE, name='clear')
+        clears_ = [m for m in F.methods_of(STATE) if m.get('name') == 'clear']
+        if clears_:
+            clear = clears_[0]
+        else:
+            # clear() folded into its only legitimate caller: the transition that pops without delivering
+            from rl import entry_methods as _em
+            cands = []
+            for m in _em(F, CG, STATE):
+                if m['path'] not in F.alias_fns:
+                    continue
+                for path in E.run(m['path']):
+                    if any(e['k'] == 'call' and e.get('name') == 'pop' and 'RingBuf' in e.get('callee', '')
+                           and not contains(path.ret, e['ret']) for e in path.events):
+                        cands.append(m)
+                        break
+            if len(cands) != 1:
+                raise CheckerError('anchor=the discard of buffered values: neither ChannelState::clear nor exactly one '
+                                   'function that pops without delivering (found %d)' % len(cands))
+            clear = cands[0]
+            R.observe('C08.R2: ChannelState::clear does not exist; the discard loop lives in %s' % clear['path'])
         # ... and what it does: pop until the buffer reports empty (so the discarded values are dropped here and
         # now, each once), returning only after is_empty() == true; it does return after >= 1 pop
         npop = set()
         for path in E.run(clear['path']):
             if path.exit != 'return':
                 continue
-            bev = [e for e in path.events if e['k'] == 'call' and e.get('name') in ('is_empty', 'pop', 'len')]
+            bev = [e for e in path.events if e['k'] == 'call' and e.get('name') in ('is_empty', 'pop', 'len')
+                   and 'RingBuf' in e.get('callee', '')]
+            if not clears_ and not bev:
+                continue    # a path of the enclosing function that does not reach the discard loop
             pops = [e for e in bev if e['name'] == 'pop']
             last_ok = bool(bev) and bev[-1]['name'] == 'is_empty' and const_of(E, path.facts, bev[-1]['ret']) == 1
             alt = all(bev[i]['name'] == ('is_empty' if i % 2 == 0 else 'pop') for i in range(len(bev)))
@@ -179,7 +235,7 @@ def run(C, R):
             R.fail('C08.R2', [clear['path'], 'clear-does-not-terminate', str(sorted(npop))],
                    'clear() has no returning path for a %s buffer' % ('non-empty' if 1 not in npop else 'empty'),
                    '%s:%s' % (clear['file'], clear['line']))
-        callers = sorted(set(c for c, _ in CG.callers_of(clear['path'])))
+        callers = sorted(set(c for c, _ in CG.callers_of(clear['path']))) if clears_ else [clear['path']]
         for c in callers:
             cf = F.fn(c)
             if cf and (cf.get('impl_trait') or '').endswith('ops::Drop') and (cf.get('impl_adt') or '').endswith('GenericReceiver'):
@@ -198,6 +254,10 @@ def run(C, R):
                 if path.exit != 'return':
                     continue
                 clears = [e for e in path.events if e['k'] == 'call' and e['callee'] == clear['path']]
+                if not clears_:
+                    # folded: the drain loop's own buffer accesses are the discard
+                    clears = [e for e in path.events if e['k'] == 'call' and e.get('name') in ('is_empty', 'pop')
+                              and 'RingBuf' in e.get('callee', '') and e.get('fn') == clear['path']]
                 if not clears:
                     continue
                 subs = [e for e in path.events if e['k'] == 'call' and e['name'] == 'fetch_sub'
